@@ -1,11 +1,89 @@
-/- Oracle operations, group Hash (see /verif/CONVENTIONS.md). -/
+/- Oracle operations, group Hash (C20; see /verif/CONVENTIONS.md and harness/hash.go). -/
 import BtcVerif.Oracle.Util
+import BtcVerif.Model.MultiHasher
 
 namespace BtcVerif.Oracle
-open BtcVerif
+open BtcVerif BtcVerif.Model.MultiHasher
+open BtcVerif.Spec.MultiHasher (Op Out)
+
+/-- `<hex>` | `-` | `rep:<hexbyte>:<count>` -/
+def parseData (s : String) : Option Bytes :=
+  match s.splitOn ":" with
+  | ["rep", b, n] => do
+    let bs ← parseHex b
+    let k ← n.toNat?
+    match bs with
+    | [x] => some (List.replicate k x)
+    | _ => none
+  | [_] => parseHex s
+  | _ => none
+
+def parseChunks (s : String) : Option (List Bytes) :=
+  if s == "." then some [] else (s.splitOn ",").mapM parseData
+
+def parseStage : String → Option Stage
+  | "sha256" => some sha256Stage
+  | "sha512" => some sha512Stage
+  | "rmd160" => some ripemd160Stage
+  | _ => none
+
+def parseStages (s : String) : Option (List Stage) :=
+  if s == "-" then some [] else (s.splitOn ",").mapM parseStage
+
+def parseMhOp (s : String) : Option Op :=
+  if s == "s" then some (.sum [])
+  else if s == "r" then some .reset
+  else if s == "z" then some .size
+  else if s == "b" then some .blockSize
+  else if s.startsWith "w:" then (parseData (s.drop 2).toString).map .write
+  else if s.startsWith "p:" then (parseData (s.drop 2).toString).map .sum
+  else none
+
+def parseMhOps (s : String) : Option (List Op) :=
+  if s == "." then some [] else (s.splitOn ";").mapM parseMhOp
+
+def outStr : Out → String
+  | .wrote n => s!"w{n}"
+  | .digest d => hexOf d
+  | .unit => "r"
+  | .num n => s!"{n}"
+
+/-- the harness tags Size with `z` and BlockSize with `b`; the tag comes from the operation -/
+def outStrFor : Op → Out → String
+  | .size, .num n => s!"z{n}"
+  | .blockSize, .num n => s!"b{n}"
+  | _, o => outStr o
+
+def zipOuts : List Op → List Out → List String
+  | op :: ops, o :: os => outStrFor op o :: zipOuts ops os
+  | _, _ => []
 
 def opHash (op : String) (args : List String) : Option String :=
   match op, args with
+  | "sha256", [d] => do
+    let bs ← parseData d
+    some s!"ok {hexOf (sha256 Prim.sha256 bs)}"
+  | "dsha256", [d] => do
+    let bs ← parseData d
+    some s!"ok {hexOf (doubleSha256 Prim.sha256 bs)}"
+  | "rmd160", [d] => do
+    let bs ← parseData d
+    some s!"ok {hexOf (ripemd160 ripemd160Stage bs)}"
+  | "hash160", [d] => do
+    let bs ← parseData d
+    some s!"ok {hexOf (hash160 Prim.sha256 ripemd160Stage bs)}"
+  | "tagged", [t, cs] => do
+    let tag ← parseData t
+    let chunks ← parseChunks cs
+    some s!"ok {hexOf (taggedHash Prim.sha256 sha256Stage tag chunks)}"
+  | "mh.run", [st, os] =>
+    match parseStages st, parseMhOps os with
+    | some stages, some ops =>
+      match run stages ops with
+      | .ok outs => some ("ok " ++ (if outs.isEmpty then "." else joinWith ";" (zipOuts ops outs)))
+      | .err => some "err"
+      | .panic => some "panic"
+    | _, _ => none
   | _, _ => none
 
 end BtcVerif.Oracle
